@@ -346,7 +346,7 @@ fn bases(seed: u64) -> Vec<Scenario> {
 
 pub fn run(ctx: &mut Ctx) {
     ctx.rule = "unacknowledged mode; closure off/on x Modular/Null checksum x (size, content) in {0, 1, 32, 100 zero-runs, 96 checksum-neutral, 70 zero-tail} with segment 32; \
-every single loss and every pair of losses over all datagrams of both directions (ordinals 0..n+2, so retransmitted Finished/EOF are hit too) - exhaustive; plus proptest scenarios \
+every single loss and every pair of losses over all datagrams of both directions (ordinals 0..n+2, so retransmitted Finished/EOF are hit too) - exhaustive; a Prompt(NAK), Prompt(keep-alive) or duplicate Metadata delivered to the receiver after every datagram of the transfer, with and without an earlier loss - exhaustive; plus proptest scenarios \
 from the general generator restricted to unacknowledged mode (drop/duplicate/delay/corrupt). Non-trivial = closure on, or at least one datagram lost; distinct by scenario."
         .into();
     ctx.assumptions = vec![
@@ -379,6 +379,41 @@ from the general generator restricted to unacknowledged mode (drop/duplicate/del
         }
     }
     ctx.section = "every-single-and-double-loss".into();
+    ctx.drive_list(&part, cases, true);
+    // PDUs an unacknowledged-mode receiver has nothing to say to: a Prompt (NAK / keep-alive), a duplicate of the Metadata - delivered after datagram k of the transfer, optionally with one earlier loss so that the
+    // receiver has something it *could* report. Whatever it does with them, it answers with no ACK, NAK or keep-alive.
+    let mut cases = vec![];
+    for sc in &bs {
+        let (a, _) = baseline_counts(sc);
+        let pup = crate::puppet::Pup::for_put(sc, 0);
+        let p0 = &sc.puts[0];
+        let size = p0.file.as_ref().map(|f| f.size as u64).unwrap_or(0);
+        let extras: Vec<Vec<u8>> = vec![
+            pup.prompt(true),
+            pup.prompt(false),
+            pup.metadata(size, &p0.src_name, &p0.dst_name, sc.entities[0].cfg.closure, sc.entities[0].cfg.null_checksum, vec![]),
+        ];
+        for (xi, bytes) in extras.iter().enumerate() {
+            for k in 0..a {
+                for lost in [None, Some(1u32), Some(0u32)] {
+                    if lost == Some(k) || (xi >= 2 && lost.is_some() && k % 2 == 1) {
+                        continue;
+                    }
+                    let mut s = sc.clone();
+                    if let Some(l) = lost {
+                        s.faults.push(Fault { from: 0, to: 1, ordinal: l, kind: FaultKind::Drop });
+                    }
+                    s.actions.push(Action {
+                        trigger: Trigger::OnOrdinal { from: 0, to: 1, ordinal: k, delay_ms: sc.lat_ms + 1 },
+                        entity: 0,
+                        kind: ActionKind::Inject { to: 1, as_from: 0, bytes: bytes.clone() },
+                    });
+                    cases.push(C18Case { sc: s });
+                }
+            }
+        }
+    }
+    ctx.section = "pdus-not-to-be-answered".into();
     ctx.drive_list(&part, cases, true);
     ctx.section = "random-unack".into();
     let n = ctx.tier.pick(20_000u64, 1_500_000);
